@@ -311,8 +311,9 @@ func init() {
 		Rule: "Documents from a weighted grammar: 58 tags (table parts, lists, form controls, img with data/missing sources, inline <svg> from the SVG generator, font/center), up to 25 elements, depth <= 4 (5 in thorough), style attributes and <style> rules drawn from a curated pool of ~330 declarations covering every layout mode (display x float x position x sizes incl. 0/negative/percent x breaks x columns x flex/grid x table x overflow/opacity/transform x GCPM string-set/running/footnote/bookmark x content/counters x custom properties incl. cycles), from the C08 value grammar and from property x generated-token pairs; " +
 			"23 @page variants incl. degenerate geometry and margin boxes, @media/@import/@font-face/@counter-style, nested rules; text pool with long words, CJK, RTL/bidi (one document in ten), soft hyphens, tabs/newlines; attributes id/href/colspan/rowspan/span/start/value/size/src/lang/dir/align; HTML prologues (comment/doctype/text before <html>, missing <html>/<body>); presentational hints on/off, optional user sheet, both text engines, zoom in {0.1, 1, 3}. " +
 			"Oracle 1: NewHTML -> Render -> Write(recording backend) returns: a panic, process death (stack exhaustion, fatal error) or 12 s of silence is a violation identified by its site. Oracle 2 (one case in four): the same document with one invalid or unsupported CSS construct appended to its first style sheet (unknown property, ill-typed value, unknown at-rule, unsupported pseudo-element/class, bad @font-face/@counter-style/@page, stray '}', unterminated rule) must keep the page count and the multiset of drawn text, and log at least one more warning. " +
+			"One case in five comes from the grammar of ordinary documents (a page far larger than its content, 1-3 flex / grid / table / multi-column / inline / float containers with the parameter range of their layout mode, nested once): a hang there is identified as hang:<package>:ordinary-document. One case in 25 is a fixed small document whose sheet imports another one, rendered with and without a skipped rule (invalid selector, unknown at-rule, unsupported pseudo-element) before the @import: same pages and drawn text. " +
 			"Non-trivial: the render reached Write and the box tree holds >= 3 element boxes.",
-		ImportantLabels: []string{"pages>1", "table", "flex", "grid", "float", "abspos", "svg", "engine:gotext", "engine:pango", "hints", "metamorphic-pair", "degenerate-page", "margin-box"},
+		ImportantLabels: []string{"ordinary-document", "skipped-rule-before-import", "pages>1", "table", "flex", "grid", "float", "abspos", "svg", "engine:gotext", "engine:pango", "hints", "metamorphic-pair", "degenerate-page", "margin-box"},
 		Assumptions:     []string{"non-termination is approximated by 12 s without return (median render: a few ms)", "resources are fetched through an offline fetcher (data: URIs only)"},
 	})
 }
